@@ -24,12 +24,12 @@ MANIFEST = {
 }
 
 STATEMENT_NAMES = ['MI', 'MI-numba-randomized', 'MI-numba-3mr', 'max-value-coverage', 'AMI', 'correlation-Pearson', 'Constant']
-POOL = ['', 'a', 'é', '10']
+POOL = ['', 'é', '10', '010', '10.0']      # empty, unicode, and three different strings that denote the same number
 BOUNDS = {'quick': {'dispatch': 4, 'coverage': [2, 3], 'pairhash': [256, 32768]}, 'thorough': {'dispatch': 5, 'coverage': [2, 3, 4], 'pairhash': [256, 32768]}}
 INFO = {
     'engine': 'symx + z3 + real pandas',
     'explanation': 'see level text',
-    'bounds': {t: {'dispatch': '4-row (thorough 5-row) frames, feature cells from ["", "a", "é", "10"], label anywhere among 3 columns, target-only/pairwise, all documented names',
+    'bounds': {t: {'dispatch': '4-row (thorough 5-row) frames, feature cells from ["", "é", "10", "010", "10.0"], label anywhere among 3 columns, target-only/pairwise, all documented names',
                    'coverage': f'vectors of {b["coverage"]} codes, widths int8/int16/int32', 'pairhash': 'codes below 256 / 32768'} for t, b in BOUNDS.items()},
     'outside': ['the computations inside sklearn/scipy leaves', 'surrogate heuristics', 'frames larger than the bound'],
     'assumptions': ['pool = serial stub (order-preserving contract)', 'numpy scalar arithmetic of max_pair_coverage modelled as: python-int operand outside the dtype raises OverflowError (numpy>=2), in-range products wrap modulo 2^bits'],
